@@ -194,6 +194,14 @@ fn generate(seed: u64, n: usize, tier: &str, out: &mut impl Write) {
             }
         });
     }
+    // a pair listed twice with a competitor in between: [p, q, p] -- p takes its LAST rank (2),
+    // so q (rank 1) must win wherever both apply
+    for a1 in &abc { for b1 in &abc { for a2 in &abc { for b2 in &abc {
+        if (a1, b1) != (a2, b2) {
+            let t = vec![(a1.clone(), b1.clone()), (a2.clone(), b2.clone()), (a1.clone(), b1.clone())];
+            emit(out, &base_spec(t), &abc, 3, &[], "dup-pqp");
+        }
+    }}}}
     // 2. sampled deeper tables over {a,b,c}
     let nsamp = if thorough { n } else { n / 2 };
     for i in 0..nsamp {
